@@ -370,3 +370,36 @@ def front_end_types(types):
     mt = cd.annotated_vyper_module._metadata["type"]
     ft = [f for f in mt.exposed_functions if f.name == "f"][0]
     return [a.typ for a in ft.arguments]
+
+
+# ------------------------------------------------------------------ python encoder with configurable padding
+def py_enc(t, v, pad=0):
+    """ABI encoding with every byte-string padding byte set to `pad` (pad=0: canonical; used only to build
+    NON-canonical but acceptable inputs; pad=0 output is asserted equal to the Coq spec by the callers)"""
+    k = t[0]
+    if k in ("uint", "int", "bool", "address", "decimal", "flag"):
+        return (v % 2 ** 256).to_bytes(32, "big")
+    if k == "bytesM":
+        return bytes(v) + bytes(32 - len(v))
+    if k in ("bytes", "string"):
+        return len(v).to_bytes(32, "big") + bytes(v) + bytes([pad]) * ((-len(v)) % 32)
+    if k == "sarr":
+        return _py_seq([(t[1], x) for x in v], pad)
+    if k == "darr":
+        return len(v).to_bytes(32, "big") + _py_seq([(t[1], x) for x in v], pad)
+    if k == "tuple":
+        return _py_seq(list(zip(t[1], v)), pad)
+    raise ValueError(t)
+
+
+def _py_seq(items, pad):
+    encs = [(is_dynamic(t), py_enc(t, v, pad)) for t, v in items]
+    head_len = sum(32 if d else len(e) for d, e in encs)
+    heads, tails = b"", b""
+    for d, e in encs:
+        if d:
+            heads += (head_len + len(tails)).to_bytes(32, "big")
+            tails += e
+        else:
+            heads += e
+    return heads + tails
